@@ -135,9 +135,17 @@ func (w *witnesses) flush() {
 
 type tally struct {
 	schedules, overlap, fired, violating int64
+	stuck, skipped                       int64
 }
 
 func (w *witnesses) one(c *ev.Case, sc *scenario, plan faultPlan, o judgeOpts, ch sched.Chooser, t *tally) *sched.Outcome {
+	if t.stuck >= 25 {
+		// Workers that stay blocked although nothing is held by the harness cannot be released;
+		// after enough such schedules of one case the exploration of that case stops instead of
+		// piling up blocked goroutines (an Outcome without choices ends the DFS).
+		t.skipped++
+		return &sched.Outcome{Panics: map[string]string{}}
+	}
 	s := sched.New()
 	// The middleware and MemoryLock have no timers of their own: nothing can release a worker
 	// that is blocked with nobody parked, so one virtual second of idling decides a deadlock.
@@ -161,6 +169,9 @@ func (w *witnesses) one(c *ev.Case, sc *scenario, plan faultPlan, o judgeOpts, c
 	if len(fs) > 0 {
 		t.violating++
 		w.report(c, r, fs)
+	}
+	if out.Deadlock && len(r.probe.holder) == 0 {
+		t.stuck++
 	}
 	return out
 }
@@ -194,6 +205,9 @@ func (t *tally) flush(e *ev.Env, family string) {
 	e.Stat("schedules."+family, t.schedules)
 	e.Stat("overlap_schedules", t.overlap)
 	e.Stat("violating_schedules", t.violating)
+	if t.skipped > 0 {
+		e.Stat("schedules_skipped_after_repeated_unreleasable_deadlock", t.skipped)
+	}
 }
 
 // dfsPrefix is sched.DFS restricted to the subtree below a fixed prefix of multi-option choices
@@ -496,6 +510,59 @@ func runWalks(e *ev.Env, w *witnesses) {
 		})
 	}
 	e.Note("walks", "walk3 / walk4: seeded uniform random walks over schedules of 3 / 4 concurrent requests (not exhaustive)")
+}
+
+// The `reuse` family: every worker is a keep-alive connection (one RequestCtx re-used for its
+// requests). Connection 0 sends a request with key A and then goes on with ANOTHER key (same
+// length: near keys; other lengths: custom validator), a keyless or a safe request, while
+// duplicates of A on other connections are still waiting for the lock or inside their critical
+// section. Existing clauses: the other-key request executes exactly once and completes, no
+// deadlock, the duplicates are replayed.
+func reuseScenario(i int) *scenario {
+	nexts := []reqSpec{
+		other("POST"), keyedReq("PUT", nearKeys[0]), keyedReq("POST", nearKeys[3]),
+		keyedReq("POST", anyKeys[0]), keyedReq("POST", anyKeys[1]), keyedReq("POST", anyKeys[3]),
+		keyless("POST"), keyedReq("GET", keyPool[1]),
+	}
+	nx := nexts[i%len(nexts)]
+	sc := &scenario{ReuseCtx: true, ShapeBase: i % len(shapes)}
+	for _, k := range anyKeys {
+		if nx.Key == k {
+			sc.AnyKey = true
+		}
+	}
+	switch (i / len(nexts)) % 3 {
+	case 0: // A | A            then conn 0: next
+		sc.Reqs = []reqSpec{dup("POST"), dup("POST"), nx}
+		sc.Workers = [][]int{{0, 2}, {1}}
+	case 1: // A | A | A        then conn 0: next
+		sc.Reqs = []reqSpec{dup("POST"), dup("PUT"), dup("POST"), nx}
+		sc.Workers = [][]int{{0, 3}, {1}, {2}}
+	default: // both connections go on with another key
+		sc.Reqs = []reqSpec{dup("POST"), dup("POST"), nx, keyedReq("POST", keyPool[2])}
+		sc.Workers = [][]int{{0, 2}, {1, 3}}
+	}
+	sc.FailFirst = (i/(3*len(nexts)))%2 == 1
+	if (i/(6*len(nexts)))%2 == 1 {
+		sc.Keep = keepList
+	}
+	return sc
+}
+
+func runReuse(e *ev.Env, w *witnesses) {
+	walks := e.N(40, 300)
+	e.Cases("reuse", e.N(48, 480), func(c *ev.Case) {
+		sc := reuseScenario(mustIndex(c.ID))
+		var t tally
+		o := judgeOpts{doubleCtx: "concurrent-duplicates", linz: true}
+		sched.DFS(e.N(150, 1500), func(ch sched.Chooser) *sched.Outcome { return w.one(c, sc, faultPlan{}, o, ch, &t) })
+		for k := 0; k < walks; k++ {
+			cr := c.R.Split()
+			w.one(c, sc, faultPlan{}, o, sched.RandomChooser(cr.Intn), &t)
+		}
+		t.flush(e, "reuse")
+	})
+	e.Note("reuse", "workers are keep-alive connections (one fasthttp.RequestCtx re-used per worker, header buffers overwritten by the next request); per case the first 150/1500 DFS schedules plus 40/300 random walks (not exhaustive)")
 }
 
 func mustIndex(id string) int {
